@@ -579,7 +579,7 @@ pub fn spaces_axes(ctx: &Ctx, base: &BaseTables) {
                 check_font(ctx, base, &fc, defs, sds, pairs, &mut l);
             } else {
                 for (d, sd) in defs.iter().zip(sds.iter()) {
-                    let gc = groups::GroupCase { ift: Some(tm.clone()), iftx: None, def: d.clone() };
+                    let gc = groups::GroupCase { ift: Some(tm.clone()), iftx: None, def: d.clone(), cmap12: false };
                     groups::run_one(ctx, base, &gc, sd, &mut l);
                 }
                 counter.fetch_add(defs.len() as u64, std::sync::atomic::Ordering::Relaxed);
@@ -651,6 +651,126 @@ pub fn spaces_explicit_empty(ctx: &Ctx, base: &BaseTables) {
             let t = TableModel::F2(tables[i].clone());
             let fc = FontCase { kind: "f2-empty", ift: Some(&t), iftx: None };
             check_font(ctx, base, &fc, defs, sds, pairs, &mut l);
+        }
+        ctx.merge(l);
+    });
+}
+
+// ---------------------------------------------------------------------------
+// format-1 mappings over a font whose selected cmap subtable is format 12 with code points at the
+// extremes of the Unicode range and at group boundaries: the glyph-map intersection has one code
+// path for inverted code point sets (iterating the cmap) and one for plain sets (looking each code
+// point up); both must agree with the reference and with each other (monotonicity / containment).
+// ---------------------------------------------------------------------------
+
+/// (start, end, start glyph) groups of the hand-encoded format-12 subtable
+const CMAP12_GROUPS: [(u32, u32, u32); 7] = [
+    (0x0, 0x0, 1),
+    (0x41, 0x42, 1),
+    (0xFFFF, 0xFFFF, 3),
+    (0x1_0000, 0x1_0001, 4),
+    (0x2_0000, 0x2_0001, 1),
+    (0x2_0002, 0x2_0002, 1), // adjacent to the previous group
+    (0x10_FFFE, 0x10_FFFF, 4),
+];
+
+pub fn base_tables_cmap12() -> BaseTables {
+    let mut b = base_tables();
+    let mut w = W::default();
+    w.u16(0); // version
+    w.u16(1); // one encoding record
+    w.u16(3); // Windows
+    w.u16(10); // Unicode full repertoire
+    w.u32(12);
+    w.u16(12); // format
+    w.u16(0);
+    w.u32(16 + 12 * CMAP12_GROUPS.len() as u32);
+    w.u32(0); // language
+    w.u32(CMAP12_GROUPS.len() as u32);
+    let mut map = BTreeMap::new();
+    for (s, e, g) in CMAP12_GROUPS {
+        w.u32(s);
+        w.u32(e);
+        w.u32(g);
+        for c in s..=e {
+            map.insert(c, g + (c - s));
+        }
+    }
+    for t in b.tables.iter_mut() {
+        if t.0 == Tag::new(b"cmap") {
+            t.1 = w.0.clone();
+        }
+    }
+    b.cmap = map;
+    b
+}
+
+pub fn spaces_f1_cmap12(ctx: &Ctx, _base: &BaseTables) {
+    let base = base_tables_cmap12();
+    let thorough = ctx.run.tier == Tier::Thorough;
+    let specials: Vec<u32> = vec![0x0, 0xFFFF, 0x1_0000, 0x1_0001, 0x2_0000, 0x2_0001, 0x2_0002, 0x10_FFFE, 0x10_FFFF];
+    let mapped: Vec<u32> = base.cmap.keys().copied().collect();
+    let mut cps: Vec<DCps> = vec![DCps::Set(vec![]), DCps::AllExcept(vec![]), DCps::AllExcept(vec![A]), DCps::Set(specials.clone())];
+    for c in &specials {
+        cps.push(DCps::Set(vec![*c]));
+        cps.push(DCps::AllExcept(vec![*c]));
+        // everything except the OTHER mapped code points: the inverted path has to find exactly c
+        cps.push(DCps::AllExcept(mapped.iter().copied().filter(|x| x != c).collect()));
+        // an unmapped neighbour must not matter
+        cps.push(DCps::Set(vec![*c, c.wrapping_add(7) & 0x10_FFFF]));
+    }
+    let mut defs = vec![];
+    for c in &cps {
+        for f in [DFeat::Set(vec![]), DFeat::All] {
+            defs.push(Def { cps: c.clone(), feats: f, ds: DDs::Ranges(vec![]) });
+        }
+    }
+    let sds: Vec<_> = defs.iter().map(to_subset_definition).collect();
+    let pairs = subset_pairs(&defs);
+    ctx.run.bound("cmap12_definitions", json!(defs.len()));
+    ctx.run.bound("cmap12_subset_pairs", json!(pairs.len()));
+    ctx.run.bound("cmap12_groups", json!(CMAP12_GROUPS));
+    // glyph maps gid 1..=5 -> entries {0..3}; quick fixes gids 2,3
+    let mut tables: Vec<T1> = vec![];
+    for code in 0..4u32.pow(5) {
+        let entry_index: Vec<u16> = (0..5).map(|k| ((code >> (2 * k)) & 3) as u16).collect();
+        if !thorough && !(entry_index[1] == 1 && entry_index[2] == 2) {
+            continue;
+        }
+        for (patch_format, applied) in [(3u8, 0u8), (3, 0b0100), (1, 0), (2, 0b1000)] {
+            for fm in [None, Some(vec![FRec { tag: LIGA, first_new: 4, maps: vec![(1, 3)] }])] {
+                tables.push(T1 {
+                    compat: [1, 2, 3, 4],
+                    max_entry_index: 4,
+                    max_glyph_map_entry_index: 3,
+                    glyph_count: 6,
+                    first_mapped_glyph: 1,
+                    entry_index: entry_index.clone(),
+                    feature_map: fm,
+                    applied: vec![applied],
+                    template: b"p/{id}".to_vec(),
+                    patch_format,
+                    cff_off: None,
+                    cff2_off: None,
+                });
+            }
+        }
+    }
+    ctx.run.count("f1_tables_over_format12_cmap", tables.len() as u64);
+    ctx.run.sample(json!({"space":"f1-cmap12","table": tables[11], "definitions": defs.len()}));
+    let (tables, defs, sds, pairs, base) = (&tables, &defs, &sds, &pairs, &base);
+    let chunk = 8;
+    par_for(tables.len().div_ceil(chunk), |c| {
+        let mut l = Local::default();
+        for i in c * chunk..((c + 1) * chunk).min(tables.len()) {
+            let t = TableModel::F1(tables[i].clone());
+            let fc = FontCase { kind: "f1-cmap12", ift: Some(&t), iftx: None };
+            check_font(ctx, base, &fc, defs, sds, pairs, &mut l);
+            // selection with the all-inclusive definition must offer what the single code points offer
+            if tables[i].patch_format == 3 {
+                let gc = groups::GroupCase { ift: Some(t.clone()), iftx: None, def: defs[2].clone(), cmap12: true };
+                groups::run_one(ctx, base, &gc, &sds[2], &mut l);
+            }
         }
         ctx.merge(l);
     });
